@@ -524,11 +524,21 @@ def check_event_writers(rep, prog):
                     {ast.literal_eval(k): ast.unparse(v) for k, v in zip(dct[0].keys, dct[0].values)}.get('dest') == 'dest' and \
                     {ast.literal_eval(k): ast.unparse(v) for k, v in zip(dct[0].keys, dct[0].values)}.get('rate') == 'e.mig[m_ii]'
                 okr = skip and incr and okd
-    rep.ob('R-TPL', 'Demes.output migration decode', okr, 'for dest: for source != dest: rate = e.mig[m_ii]; m_ii += 1', dm.rel, out.lineno,
+    if not okr:
+        # the same walk written as an enumeration of the (dest, source) pairs in destination-major order without the diagonal
+        from sa.pattern import has as _has
+        t_ = ast.unparse(out)
+        okr = _has(t_, "pairs = [(dest, source) for dest in e.deme_ids for source in e.deme_ids if not dest == source]") and \
+            _has(t_, "for m_ii, (dest, source) in enumerate(pairs):\n    if e.mig[m_ii] != 0:\n        all_migs.append({'rate': e.mig[m_ii], 'source': source, 'dest': dest, 'start_time': start_time, 'end_time': e.end_time})")
+    found_decode = okr or any(isinstance(n, ast.For) and 'e.deme_ids' in ast.unparse(n.iter) and 'm_ii' in ast.unparse(n) for n in own_nodes(out))
+    rep.ob('R-TPL', 'Demes.output migration decode', okr, 'for dest: for source != dest: rate = e.mig[m_ii]; m_ii += 1' + ('' if found_decode else ' (walk over the rates not found)'), dm.rel, out.lineno,
            what='reader walks mig in destination-major order (same as the writers)')
     # export factors are inverse of import factors
     txt = ast.unparse(out)
-    facs = {'end_time': "epochs[-1]['end_time'] *= 2 * Nref" in txt, 'size': "epochs[-1]['start_size'] *= Nref" in txt and "epochs[-1]['end_size'] *= Nref" in txt,
+    # (the epoch being filled in is epochs[-1], or a local alias of the dictionary that was just appended)
+    ep = r"(?:epochs\[-1\]|%s)" % '|'.join(sorted({n.targets[0].id for n in own_nodes(out) if isinstance(n, ast.Assign) and isinstance(n.targets[0], ast.Name) and isinstance(n.value, ast.Dict)
+                                                        and any(isinstance(c, ast.Call) and ast.unparse(c) == 'epochs.append(%s)' % n.targets[0].id for c in own_nodes(out))} | {'epochs\\[-1\\]'}))
+    facs = {'end_time': bool(re.search(ep + r"\['end_time'\] \*= 2 \* Nref", txt)), 'size': bool(re.search(ep + r"\['start_size'\] \*= Nref", txt)) and bool(re.search(ep + r"\['end_size'\] \*= Nref", txt)),
             'rate': "m['rate'] /= 2 * Nref" in txt, 'mig times': "m['start_time'] *= 2 * Nref" in txt and "m['end_time'] *= 2 * Nref" in txt,
             'start_time': txt.count('start_time *= 2 * Nref') == 2, 'pulse time': 'e.end_time *= 2 * Nref' in txt}
     for k, v in facs.items():
@@ -682,11 +692,29 @@ def check_output_names(rep, prog):
     rep.ob('R-TPL', 'Demes.output Remove names', okr, '; '.join(ast.unparse(x) for x in body) if body else 'not found', dm.rel, body[0].lineno if body else out.lineno,
            what='names after a removal: copy of the older names without entry removed-1 (1-based event field)')
     body = arms.get('isinstance(younger, Split)')
-    oks = body is not None and any(ast.unparse(x) == "younger.deme_ids = ['d{0}_{1}'.format(era, ii + 1) for ii in range(len(older.deme_ids) + 1)]" for x in body) and any(ast.unparse(x) == 'era += 1' for x in body)
+    def split_names(x):
+        # n+1 names d<era>_1 .. d<era>_<n+1>, written with str.format or an f-string
+        if not (isinstance(x, ast.Assign) and ast.unparse(x.targets[0]) == 'younger.deme_ids' and isinstance(x.value, ast.ListComp) and len(x.value.generators) == 1):
+            return False
+        g = x.value.generators[0]
+        if not isinstance(g.target, ast.Name) or g.ifs:
+            return False
+        v = g.target.id
+        form = (ast.unparse(x.value.elt), ast.unparse(g.iter))
+        return form in (("'d{0}_{1}'.format(era, %s + 1)" % v, 'range(len(older.deme_ids) + 1)'), ("f'd{era}_{%s + 1}'" % v, 'range(len(older.deme_ids) + 1)'),
+                        ("f'd{era}_{%s}'" % v, 'range(1, len(older.deme_ids) + 2)'), ("'d{0}_{1}'.format(era, %s)" % v, 'range(1, len(older.deme_ids) + 2)'))
+    oks = body is not None and any(split_names(x) for x in body) and any(ast.unparse(x) == 'era += 1' for x in body)
     rep.ob('R-TPL', 'Demes.output Split names', oks, 'a split creates one more deme than before, all renamed in a new era', dm.rel, body[0].lineno if body else out.lineno, what='names after a split')
     # end times: accumulated from the present backwards
     t = ast.unparse(out)
     oke = 'cache[-1].end_time = 0' in t and 'for younger, older in zip(cache[::-1][:-1], cache[::-1][1:])' in t and ('older.end_time = younger.end_time + younger.duration' in t or 'older.end_time = younger.duration + younger.end_time' in t)
+    if not oke:
+        # the same recurrence with an index running from the event before the last down to the first
+        from sa.pattern import has as _has2
+        oke = 'cache[-1].end_time = 0' in t and (
+            _has2(t, 'for ii in range(len(cache) - 2, -1, -1):\n    younger = cache[ii + 1]\n    cache[ii].end_time = younger.end_time + younger.duration') or
+            _has2(t, 'for ii in range(len(cache) - 2, -1, -1):\n    cache[ii].end_time = cache[ii + 1].end_time + cache[ii + 1].duration') or
+            _has2(t, 'for ii in reversed(range(len(cache) - 1)):\n    cache[ii].end_time = cache[ii + 1].end_time + cache[ii + 1].duration'))
     rep.ob('R-TPL', 'Demes.output end times', oke, 'end_time(older) = end_time(younger) + duration(younger), starting from 0 at the present', dm.rel, out.lineno, what='event end times accumulate durations backwards in time')
 
 
